@@ -417,7 +417,7 @@ def c11_runs(tier, hb=0):
          # is still inside its collection loop when the next one arrives and the owner is already reacting
          mt_run('two-loops.reaper-elsewhere.paced', h,
                 ['wait.reaper-is-another-thread', 'wait.termination-delivered', 'wait.batch-of-several-statuses'],
-                preempt=1, C=3, strangers=0, events=2 if q else 3, twoloops=2, ops=1, worldwait=1, hb=hb),
+                preempt=1, C=3, strangers=0, events=2, twoloops=2, ops=1, worldwait=1, hb=hb),
          # the owner unregisters an interest (an interior node of the shared tree) on its own while the
          # reaper thread may be collecting that very child
          mt_run('two-loops.spontaneous-unregister', h,
